@@ -23,6 +23,13 @@ def family():
            ('bind', 'x', 'd', ('forall', 'xx', None, ('exists', 'xxx', 'e', ('or', ('jump', 'xxx', ('EX', X)), XX)))),
            ('bind', 'x', 'empty', ('EX', X)), ('exists', 'x', 'empty', W), ('forall', 'x', 'empty', W), ('forall', 'x', 'full', ('EF', X)), ('exists', 'x', 'full', ('and', X, W)),
            ('bind', 'x', 'd', ('bind', 'xx', 'empty', ('true',))), ('forall', 'x', 'd', ('forall', 'xx', 'empty', ('false',)))]
+    # a jump to the scope's own variable evaluated before a closed duplicate, the same pair under another domain / outside
+    for d1, d2 in (('d', 'e'), ('d', 'f'), ('f', None)):
+        mk = lambda d_: ('bind', 'x', d_, ('and', ('jump', 'x', P), ('AX', P1)))
+        fs += [('or', mk(d1), mk(d2)), ('and', mk(d1), ('not', mk(d2))), ('or', ('exists', 'x', d1, ('and', ('jump', 'x', ('EX', P)), ('AX', P1))), ('AX', P1))]
+    fs += [('exists', 'x', 's1', ('jump', 'x', ('EF', P1))), ('forall', 'x', 's1', ('jump', 'x', ('AX', P1))), ('bind', 'x', 's1', ('EX', X)), ('forall', 'x', 's0', ('or', ('EF', X), W))]
+    # forall over a colour-dependent domain whose body holds nowhere in the restricted universe (vacuous truth colour by colour)
+    fs += [('forall', 'x', 'd', ('jump', 'x', ('false',))), ('forall', 'x', 'd', ('jump', 'x', ('not', ('wild', 'd')))), ('forall', 'x', 'e', ('and', X, ('not', X))), ('exists', 'x', 'd', ('jump', 'x', ('false',)))]
     return fs
 
 def repeated_domain_family():
